@@ -644,6 +644,18 @@ func ruleR12w(c *Ctx, r *Report) {
 				if f != nil && f.Pkg() != nil && (f.Pkg().Path() == "sort" || f.Pkg().Path() == "slices") && strings.HasPrefix(f.Name(), "Sort") || funcIs(f, "sort", "", "Slice") || funcIs(f, "sort", "", "SliceStable") {
 					state = true
 				}
+				// a matched root is taken out of a working copy of the other list
+				if funcIs(f, "slices", "", "Delete") || funcIs(f, "slices", "", "DeleteFunc") {
+					state = true
+				}
+				if b, isB := x.Common().Value.(*ssa.Builtin); isB && b.Name() == "append" && len(x.Common().Args) == 2 {
+					// append(s[:i], s[i+1:]...)
+					a0, ok0 := x.Common().Args[0].(*ssa.Slice)
+					a1, ok1 := x.Common().Args[1].(*ssa.Slice)
+					if ok0 && ok1 && a0.High != nil && a1.Low != nil && canon(a0.X) == canon(a1.X) {
+						state = true
+					}
+				}
 			case *ssa.MapUpdate:
 				state = true
 			case *ssa.Store:
@@ -665,7 +677,7 @@ func ruleR12w(c *Ctx, r *Report) {
 	} else {
 		r.Hold("roots-of-both-headers@"+fnKey(fn), c.Pos(fn.Pos()), "no root is compared with the list it came from")
 	}
-	r.Check(state, key, c.Pos(fn.Pos()), "the comparison marks, counts or sorts: each root is matched at most once", "CarHeader.Matches decides by containment alone (no entry is marked, counted or sorted): a file with roots [A A] matches a request for [A B], so a session with different roots is resumed on it — its index is cut off and its header zeroed — instead of being refused with the file untouched")
+	r.Check(state, key, c.Pos(fn.Pos()), "the comparison marks, counts, sorts or removes: each root is matched at most once", "CarHeader.Matches decides by containment alone (no entry is marked, counted or sorted): a file with roots [A A] matches a request for [A B], so a session with different roots is resumed on it — its index is cut off and its header zeroed — instead of being refused with the file untouched")
 }
 
 // paramBehind: the parameter of its function a value is read out of — through field reads,
